@@ -71,7 +71,7 @@ func (t *Thread) Wait(ctx context.Context) Object {
 	verifPoint(4, (<-chan bool)(t.done), ctx)
 	select {
 	case <-ctx.Done():
-		return Errorf("wait error: %s", ctx.Err())
+		return Errorf("wait error: %w", ctx.Err())
 	case <-t.done:
 		return t.result
 	}
